@@ -212,7 +212,12 @@ func (s *Server) Run(addr string, opt ...Option) error {
 		s.connMu.Lock()
 		if s.shutdownCtx.Err() != nil {
 			s.connMu.Unlock()
+			// accepted while the server was being stopped: not served, but
+			// closed and reported like every other accepted connection
 			_ = c.Close()
+			if s.onCloseHandler != nil {
+				s.onCloseHandler(connID)
+			}
 			continue
 		}
 		s.connWg.Add(1)
